@@ -4,15 +4,21 @@ From Coq Require Import Sorted.
 From Coq Require Import Permutation.
 From CKT Require Import Common.Base Model.Observables Proofs.ObservablesP Model.ObservablesExt Proofs.ObservablesExtP.
 
-(* restriction keeps exactly the selected letters in the given order and drops the phase *)
-Theorem c17_restrict : forall n qs ps, (forall q, In q qs -> q < n) ->
+(* restriction keeps exactly the selected letters in the given order and drops the phase.
+   Input precondition (PauliList invariant): every row has the width n of the call -- without it the model's
+   totalised `nth` would invent an identity letter where numpy raises IndexError.  The last conjunct says the
+   letter is a REAL letter of the input row (nth_error, no default).  NOTE: restrict1 is a one-line definition;
+   this theorem is a read-off of it, the weight of the clause is on the correspondence + c17_source_facts. *)
+Theorem c17_restrict : forall n qs ps,
+  (forall p, In p ps -> length (plets p) = n) -> (forall q, In q qs -> q < n) ->
   exists out, restrict n qs ps = Ok out /\ length out = length ps /\
     forall i, i < length ps ->
       pphase (nth i out pI) = 0 /\
       length (plets (nth i out pI)) = length qs /\
       forall k, k < length qs ->
-        nth k (plets (nth i out pI)) 0 = nth (nth k qs 0) (plets (nth i ps pI)) 0.
-Proof. exact restrict_full. Qed.
+        nth k (plets (nth i out pI)) 0 = nth (nth k qs 0) (plets (nth i ps pI)) 0 /\
+        nth_error (plets (nth i out pI)) k = nth_error (plets (nth i ps pI)) (nth k qs 0).
+Proof. exact restrict_full_wf. Qed.
 
 (* decompose_observables: one entry per distinct label; its qubits are exactly the indices
    carrying that label, ascending; its sub-observables are the restrictions *)
@@ -35,19 +41,27 @@ Theorem c17_recombine : forall labels p,
     (map (fun lq => (snd lq, restrict1 (snd lq) p)) (qubits_by_subsystem labels)) = plets p.
 Proof. exact recombine_decompose. Qed.
 
+(* the general recombination clause: ANY family of index blocks covering exactly 0..n-1 -- blocks in any
+   order, indices in any order inside a block (the property's "all qubit subsets/orders") -- recombines *)
+Theorem c17_recombine_any_partition : forall n p gs,
+  length (plets p) = n -> (forall q, In q (concat gs) <-> q < n) ->
+  recombine1 n (map (fun qs => (qs, restrict1 qs p)) gs) = plets p.
+Proof. exact recombine_any_partition. Qed.
+
 (* expansion: each letter lands on the position of the same qubit object, identity elsewhere,
-   phase kept *)
+   phase kept.  Input preconditions: both circuits' qubit lists are duplicate-free (Qiskit invariant),
+   rows have width nobs (PauliList invariant). *)
 Theorem c17_expand : forall nobs oq fq ps,
-  NoDup oq -> incl oq fq -> nobs = length oq ->
+  NoDup oq -> NoDup fq -> incl oq fq -> nobs = length oq ->
   (forall p, In p ps -> length (plets p) = nobs) ->
   exists out, expand nobs oq fq ps = Ok out /\ length out = length ps /\
     forall i, i < length ps ->
       let p := nth i ps pI in let r := nth i out pI in
       pphase r = pphase p /\ length (plets r) = length fq /\
-      (forall k j, k < length oq -> j < length fq -> nth j fq 0 = nth k oq 0 -> NoDup fq ->
+      (forall k j, k < length oq -> j < length fq -> nth j fq 0 = nth k oq 0 ->
           nth j (plets r) 0 = nth k (plets p) 0) /\
       (forall j, ~ In (nth j fq 0) oq -> j < length fq -> nth j (plets r) 0 = 0).
-Proof. exact expand_full. Qed.
+Proof. exact expand_full_hoisted. Qed.
 
 Theorem c17_refuses_count : forall nobs oq fq ps, nobs <> length oq -> expand nobs oq fq ps = Refused.
 Proof. exact expand_refuses_count. Qed.
@@ -58,17 +72,21 @@ Proof. exact expand_refuses_missing. Qed.
 
 (* ---- public-call outcomes (totality): every input gets exactly one of Ok / Refused / Crashed ---- *)
 
-(* both input paths (PauliList / list[Pauli]) of the restriction agree on every in-range request *)
-Theorem c17_restrict_paths : forall aslist n qs ps, (forall q, In q qs -> q < n) ->
+(* both input paths (PauliList / list[Pauli]) of the restriction agree on every in-range request
+   (read-off of the definition of restrict_seq; same input precondition as c17_restrict) *)
+Theorem c17_restrict_paths_def : forall aslist n qs ps,
+  (forall p, In p ps -> length (plets p) = n) -> (forall q, In q qs -> q < n) ->
   restrict_seq aslist n qs ps = Ok (map (restrict1 qs) ps).
-Proof. exact restrict_seq_ok. Qed.
+Proof. exact restrict_seq_ok_wf. Qed.
 
 (* outside the property's quantifier (recorded, not demanded): an index >= num_qubits is an
-   IndexError, except on the list path with no observable at all *)
-Theorem c17_restrict_out_of_range : forall aslist n qs ps, (exists q, In q qs /\ n <= q) ->
+   IndexError, except on the list path with no observable at all (that second conjunct does not depend on
+   the hypothesis) *)
+Theorem c17_restrict_out_of_range : forall aslist n qs ps,
+  (forall p, In p ps -> length (plets p) = n) -> (exists q, In q qs /\ n <= q) ->
   (aslist = false \/ ps <> [] -> restrict_seq aslist n qs ps = Crashed) /\
   restrict_seq true n qs [] = Ok [].
-Proof. intros; split; [now apply restrict_seq_crash|reflexivity]. Qed.
+Proof. exact restrict_out_of_range_wf. Qed.
 
 (* decompose_observables as a public call never refuses; it answers (with the dict of c17_decompose)
    whenever there are at most num_qubits labels, and an out-of-range index inside it IS reachable:
@@ -86,16 +104,16 @@ Proof.
   split; [apply decompose_call_empty_list|apply decompose_call_never_refused].
 Qed.
 
-(* expand_observables: answered iff the counts agree and every original qubit is in the final circuit
-   (no other hypothesis), never any other exception, and otherwise refused *)
+(* expand_observables on a well-formed PauliList (every row of width nobs): answered iff the counts agree
+   and every original qubit is in the final circuit, otherwise refused, never any other exception.
+   (Without the width premise the model's scatter would silently truncate/pad ragged rows where numpy
+   raises a broadcasting ValueError; such inputs cannot be built as a PauliList.) *)
 Theorem c17_expand_outcome : forall nobs oq fq ps,
+  (forall p, In p ps -> length (plets p) = nobs) ->
   ((exists out, expand nobs oq fq ps = Ok out) <-> nobs = length oq /\ incl oq fq) /\
   (expand nobs oq fq ps = Refused <-> ~ (nobs = length oq /\ incl oq fq)) /\
   expand nobs oq fq ps <> Crashed.
-Proof.
-  intros. split; [apply expand_ok_iff|]. split; [|apply expand_never_crashes].
-  rewrite expand_refused_iff, <- expand_refusal_none. reflexivity.
-Qed.
+Proof. exact expand_outcome_wf. Qed.
 
 (* which documented ValueError: the count message (with both numbers) takes precedence; otherwise
    the message names the FIRST original qubit that is missing *)
@@ -130,13 +148,14 @@ Theorem c17_call_cover_exactly_once : forall aslist n labels ps D,
   NoDup (covered D) /\ forall j, In j (covered D) <-> j < n.
 Proof. exact decompose_call_cover. Qed.
 
-(* expansion keeps every phase on EVERY answered call (no hypothesis), and for an original circuit
-   without qubits the answer is exactly: same phases, identity on all final qubits *)
-Theorem c17_expand_phase_kept : forall nobs oq fq ps out,
+(* read-offs of the definition of expand1 (one unfolding): expansion keeps every phase on every answered
+   call, and for an original circuit without qubits the answer is exactly: same phases, identity on all
+   final qubits *)
+Theorem c17_expand_phase_kept_def : forall nobs oq fq ps out,
   expand nobs oq fq ps = Ok out -> map pphase out = map pphase ps.
 Proof. exact expand_phase_kept. Qed.
 
-Theorem c17_expand_zero_qubits : forall fq ps,
+Theorem c17_expand_zero_qubits_def : forall fq ps,
   expand 0 [] fq ps = Ok (map (fun p => mkP (pphase p) (repeat 0 (length fq))) ps).
 Proof. exact expand_zero. Qed.
 
@@ -225,6 +244,25 @@ Example c17_ex_interner :
   qubits_by_subsystem [0; 0; 1; 2; 1] = [(0, [0; 1]); (1, [2; 4]); (2, [3])].
 Proof. repeat split. Qed.
 
+(* non-ascending blocks in non-ascending order; and a restriction with a repeated, non-ascending request *)
+Example c17_ex_any_partition :
+  (forall q, In q (concat [[2; 0]; [3; 1]]) <-> q < 4) /\
+  map (fun qs => restrict1 qs (mkP 2 [1; 2; 3; 0])) [[2; 0]; [3; 1]] = [mkP 0 [3; 1]; mkP 0 [0; 2]] /\
+  recombine1 4 (map (fun qs => (qs, restrict1 qs (mkP 2 [1; 2; 3; 0]))) [[2; 0]; [3; 1]]) = [1; 2; 3; 0].
+Proof. split; [intros q; simpl; lia|split; reflexivity]. Qed.
+
+Example c17_ex_restrict_order :
+  restrict 4 [3; 1; 3] [mkP 3 [1; 2; 3; 0]] = Ok [mkP 0 [0; 2; 0]] /\
+  restrict_seq true 4 [3; 1; 3] [mkP 3 [1; 2; 3; 0]] = Ok [mkP 0 [0; 2; 0]] /\
+  (forall p, In p [mkP 3 [1; 2; 3; 0]] -> length (plets p) = 4).
+Proof. split; [reflexivity|split; [reflexivity|]]. intros p [<-|[]]; reflexivity. Qed.
+
+(* the width premise matters: without it the model would answer with an invented identity letter *)
+Example c17_ex_width_premise_needed :
+  restrict 5 [0; 4] [mkP 3 [1; 2]] = Ok [mkP 0 [1; 0]] /\
+  expand 2 [10; 11] [11; 10; 12] [mkP 1 [1; 2; 3; 3]] = Ok [mkP 1 [2; 1; 0]].
+Proof. split; reflexivity. Qed.
+
 Print Assumptions c17_restrict.
 Print Assumptions c17_decompose.
 Print Assumptions c17_members.
@@ -232,7 +270,7 @@ Print Assumptions c17_recombine.
 Print Assumptions c17_expand.
 Print Assumptions c17_refuses_count.
 Print Assumptions c17_refuses_missing.
-Print Assumptions c17_restrict_paths.
+Print Assumptions c17_restrict_paths_def.
 Print Assumptions c17_restrict_out_of_range.
 Print Assumptions c17_decompose_call_total.
 Print Assumptions c17_decompose_call_crash.
@@ -240,10 +278,11 @@ Print Assumptions c17_expand_outcome.
 Print Assumptions c17_refusal_reason.
 Print Assumptions c17_call_recombine.
 Print Assumptions c17_call_cover_exactly_once.
-Print Assumptions c17_expand_phase_kept.
-Print Assumptions c17_expand_zero_qubits.
+Print Assumptions c17_expand_phase_kept_def.
+Print Assumptions c17_expand_zero_qubits_def.
 Print Assumptions c17_interning_contract.
 Print Assumptions c17_interner_sound.
+Print Assumptions c17_recombine_any_partition.
 
 (* tie to the source: expand_observables has exactly the two refusal sites modelled above *)
 From CKT Require Import Extracted.Facts.
